@@ -6,6 +6,7 @@ use std::collections::HashSet;
 use std::sync::Arc;
 
 use sophia_api::prelude::*;
+use sophia_api::term::VarName;
 use sophia_term::ArcStrStash;
 use sophia_term::ArcTerm;
 use spargebra::algebra::Expression;
@@ -23,6 +24,7 @@ use crate::binding::Bindings;
 use crate::binding::populate_variables;
 use crate::expression::ArcExpression;
 use crate::stash::ArcStrStashExt;
+use crate::term::ResultTerm;
 
 #[derive(Clone, Debug)]
 pub struct ExecState<'a, D: ?Sized> {
@@ -313,10 +315,29 @@ impl<'a, D: Dataset + ?Sized> ExecState<'a, D> {
         binding: Option<&Binding>,
     ) -> Result<Bindings<'a, D>, SparqlWrapperError<D::Error>> {
         if let Some(name) = graph_names.next() {
-            let mut b = binding.cloned().unwrap_or_else(Binding::default);
-            b.v.insert(self.stash.copy_str(var), name.clone().into());
-            let graph_matcher = vec![Some(name)];
-            let Bindings { variables, iter } = self.select(inner, &graph_matcher, Some(&b))?;
+            // `var` is not in scope inside `inner`: evaluate `inner` on the named graph,
+            // then join each solution with { var -> name }
+            let graph_matcher = vec![Some(name.clone())];
+            let Bindings {
+                mut variables,
+                iter,
+            } = self.select(inner, &graph_matcher, binding)?;
+            let varkey = self.stash.copy_str(var);
+            if variables.iter().all(|v| v.as_str() != var) {
+                variables.push(VarName::new_unchecked(varkey.clone()));
+            }
+            let name = ResultTerm::from(name);
+            let iter = iter.filter_map(move |resb| match resb {
+                Err(err) => Some(Err(err)),
+                Ok(mut b) => match b.v.get(&*varkey) {
+                    Some(other) if !Term::eq(other, name.borrow_term()) => None,
+                    Some(_) => Some(Ok(b)),
+                    None => {
+                        b.v.insert(varkey.clone(), name.clone());
+                        Some(Ok(b))
+                    }
+                },
+            });
             let iter = Box::new(iter.chain(Box::new(
                 self.graph_rec(var, graph_names, inner, binding)?.iter,
             )));
